@@ -245,12 +245,23 @@ GENCORE = {
     "C07": ["gen_write_is_documented_section"], "C15": ["gen_write_is_documented_section", "gen_push_data_keeps_documented_format"],
 }
 
+# further modules about translated functions that are NOT part of BS/Proofs/GenTie.lean (they import GenCore):
+# property -> (module, theorems, translated functions the module needs)
+GENEXTRA = {
+    "C14": ("BS.Props.GenNLines", ["gen_n_lines_is_model"], ["ByteSeries_n_lines_between"]),
+}
+
 for _pid, _cfg in PROPS.items():
     _cfg["ties"] = TIES.get(_pid, [])
     mods, thms = THEOREMS.get(_pid, (["BS.Props.C01"], CORE_READER))
     if _pid in GENCORE:
         mods = list(mods) + ["BS.Props.GenCore"]
         thms = list(thms) + [("BS.Props.GenCore", "BS.Gen." + t) for t in GENCORE[_pid]]
+    if _pid in GENEXTRA:
+        _m, _t, _needs = GENEXTRA[_pid]
+        mods = list(mods) + [_m]
+        thms = list(thms) + [(_m, "BS.Gen." + t) for t in _t]
+        _cfg["genextra"] = (_m, _needs)
     _cfg["lean_modules"] = mods
     _cfg["theorems"] = thms
 
